@@ -74,18 +74,19 @@ type Op struct {
 	Batch     []Op                `json:"batch,omitempty"`
 	Dup       [][2]int            `json:"dup,omitempty"` // batch: slot j repeats the call object of slot i
 	// scan
-	Start     []byte `json:"start"`
-	Stop      []byte `json:"stop"`
-	Reversed  bool   `json:"reversed,omitempty"`
-	NumRows   uint32 `json:"num_rows,omitempty"`
-	Partial   bool   `json:"partial,omitempty"`
-	CloseAt   int    `json:"close_at,omitempty"` // call Close after this many Next calls (0 = never, -1 = before the first)
-	RenewMS   int    `json:"renew_ms,omitempty"`
-	PauseMS   int    `json:"pause_ms,omitempty"`   // pause between Next calls
-	ScanClose bool   `json:"scan_close,omitempty"` // hrpc.CloseScanner option
-	TR        string `json:"tr,omitempty"`         // gets/scans: "" = time range [nonce, max), "to" = [0, nonce), "none" = no time range (gets; attributed by row)
-	Filter    bool   `json:"filter,omitempty"`     // scans: built with the run's shared hrpc.Filters option value (a page filter that lets everything pass)
-	Abandon   int    `json:"abandon,omitempty"`    // stop using the scanner after this many Next calls: neither Next nor Close is called again
+	Start      []byte `json:"start"`
+	Stop       []byte `json:"stop"`
+	Reversed   bool   `json:"reversed,omitempty"`
+	NumRows    uint32 `json:"num_rows,omitempty"`
+	Partial    bool   `json:"partial,omitempty"`
+	CloseAt    int    `json:"close_at,omitempty"` // call Close after this many Next calls (0 = never, -1 = before the first)
+	RenewMS    int    `json:"renew_ms,omitempty"`
+	PauseMS    int    `json:"pause_ms,omitempty"`    // pause between Next calls
+	ScanClose  bool   `json:"scan_close,omitempty"`  // hrpc.CloseScanner option
+	TR         string `json:"tr,omitempty"`          // gets/scans: "" = time range [nonce, max), "to" = [0, nonce), "none" = no time range (gets; attributed by row)
+	SharedOpts bool   `json:"shared_opts,omitempty"` // scans: created from the run's one options slice (spare capacity), as parallel range scans built from a common opts variable are; only the range differs
+	Filter     bool   `json:"filter,omitempty"`      // scans: built with the run's shared hrpc.Filters option value (a page filter that lets everything pass)
+	Abandon    int    `json:"abandon,omitempty"`     // stop using the scanner after this many Next calls: neither Next nor Close is called again
 	// sleep
 	MS  int     `json:"ms,omitempty"`
 	Ctx CtxSpec `json:"ctx,omitempty"`
